@@ -380,6 +380,8 @@ static bool pred_eval_raw(const predspec *ps)
         case PR_POOL_AVAIL_GE: return W.npool > 0 && cmb_resourcepool_available(W.pool[ps->a % W.npool]) >= (uint64_t)(ps->b < 1 ? 1 : ps->b);
         case PR_BUF_LEVEL_GE: return W.nbuf > 0 && cmb_buffer_level(W.buf[ps->a % W.nbuf]) >= (uint64_t)(ps->b < 1 ? 1 : ps->b);
         case PR_TRUE: return true;
+        case PR_OQ_LEN_GE: return W.noq > 0 && cmb_objectqueue_length(W.oq[ps->a % W.noq]) >= (uint64_t)(ps->b < 1 ? 1 : ps->b);
+        case PR_BUF_SPACE_GE: return W.nbuf > 0 && cmb_buffer_space(W.buf[ps->a % W.nbuf]) >= (uint64_t)(ps->b < 1 ? 1 : ps->b);
         default: return false;
     }
 }
@@ -580,7 +582,7 @@ static void exec_step(proc *pr, const pline *l)
         if (W.ncond == 0) return;
         const int c = (int)((uint64_t)pa(l, 1) % (uint64_t)W.ncond);
         predspec *ps = &predspecs[pr->id];
-        ps->kind = (int)((uint64_t)pa(l, 2) % 6); ps->a = (int)((uint64_t)pa(l, 3) % 8); ps->b = pa(l, 4); ps->cond = c;
+        ps->kind = (int)((uint64_t)pa(l, 2) % PR_NKINDS); ps->a = (int)((uint64_t)pa(l, 3) % 8); ps->b = pa(l, 4); ps->cond = c;
         call_begin(pr, OP_CWAIT, c, ps->kind);
         ret = cmb_condition_wait(W.cond[c], pred_fn, ps);
         call_end(pr, ret);
